@@ -296,6 +296,25 @@ func matrix(out *bufio.Writer, full bool) {
 			}
 		}
 	}
+	// a filter followed by more fragments, over elements of which only some contain the rest of the path (first, last, none)
+	idocs := []jl.Node{
+		O("a", A(O("x", I(1), "y", I(7)), O("x", I(1)), O("x", I(0), "y", I(9)), O("x", I(2), "y", O("z", I(3))))),
+		O("a", A(O("x", I(1)), O("x", I(1), "y", I(7)), O("x", I(1)))),
+		A(O("x", I(1), "y", A(I(4), I(5))), O("x", I(1)), O("x", I(3), "y", A(I(6)))),
+		O("a", A(O("x", I(1)), O("x", I(2)))),
+	}
+	imenu := [][]jl.Frag{
+		{jl.FRoot(), jl.FChild("a"), gt("x", 0), jl.FChild("y")}, {jl.FRoot(), jl.FChild("a"), gt("x", 1), jl.FChild("y"), jl.FChild("z")},
+		{jl.FRoot(), gt("x", 0), jl.FChild("y")}, {jl.FRoot(), gt("x", 0), jl.FChild("y"), jl.FNth(0)}, {jl.FRoot(), jl.FWild(), gt("x", 0), jl.FChild("y")},
+		{jl.FRoot(), jl.FChild("a"), jl.FFilter("exk", "y", jl.Null()), jl.FChild("x")}, {jl.FRoot(), jl.FDesc(), gt("x", 0), jl.FChild("y")},
+	}
+	for _, d := range idocs {
+		for i := range imenu {
+			emit(d, imenu[i])
+			emit(d, imenu[i], menu[0])
+			emit(d, menu[3], imenu[i])
+		}
+	}
 	for _, d := range docs {
 		emit(d, smenu[0])
 		emit(d, smenu[0], menu[0])
@@ -410,6 +429,9 @@ func exec() {
 		var sb strings.Builder
 		text(doc, &sb, r)
 		txt := sb.String()
+		if r.Intn(6) == 0 {
+			txt = "\xef\xbb\xbf" + txt // a BOM in front: the front-ends skip it, whatever the read sizes
+		}
 		var targets []jp.Expr
 		for _, t := range c.Targets {
 			targets = append(targets, jl.Expr(t))
